@@ -88,6 +88,11 @@ Definition with_topk (k : option nat) (recs : ilist) (f : list Z -> exc res) : e
   | None => f (il_ids recs)
   end.
 
+Definition trunc_ok (k : option nat) (recs : ilist) : bool :=
+  match k with Some _ => il_ordered recs | None => true end.
+Definition trunc_il (k : option nat) (recs : ilist) : ilist :=
+  {| il_ordered := il_ordered recs; il_ids := topk k (il_ids recs) |}.
+
 Definition rel (t : tlist) (i : Z) : bool := mem i (tl_ids t).
 Definition b2q (b : bool) : Q := if b then 1 else 0.
 Definition relq (t : tlist) (i : Z) : Q := b2q (rel t i).
@@ -117,9 +122,13 @@ Definition recip_model (k : option nat) (recs : ilist) (t : tlist) : exc res :=
   if Nat.eqb (tl_len t) 0 then Ret RNone
   else with_topk k recs (fun L => Ret (RVal (rr_from 1 t L))).
 
-Definition pw (g : Q) (r : nat) : Q := g ^ Z.of_nat r.            (* weight of 0-based position r *)
-Definition rbp_sum (g : Q) (t : tlist) (L : list Z) : Q := wsum (pw g) 0 (map (relq t) L).
-Definition rbp_max (g : Q) (t : tlist) (L : list Z) : Q := bigsum 0 (Nat.min (tl_len t) (length L)) (pw g).
+(* sum over the 1-based ranks r = 1..|a| of a_r * w(r) *)
+Definition ranksum (w : nat -> Q) (a : list Q) : Q :=
+  bigsum 1 (length a) (fun r => nth (r - 1) a 0 * w r).
+
+Definition pw (g : Q) (r : nat) : Q := g ^ Z.of_nat (r - 1).      (* patience^(r-1) at rank r *)
+Definition rbp_sum (g : Q) (t : tlist) (L : list Z) : Q := ranksum (pw g) (map (relq t) L).
+Definition rbp_max (g : Q) (t : tlist) (L : list Z) : Q := bigsum 1 (Nat.min (tl_len t) (length L)) (pw g).
 Definition rbp_model (g : Q) (normalize : bool) (k : option nat) (recs : ilist) (t : tlist) : exc res :=
   with_topk k recs (fun L =>
     if Nat.eqb (tl_len t) 0 then Ret RNone
@@ -128,7 +137,7 @@ Definition rbp_model (g : Q) (normalize : bool) (k : option nat) (recs : ilist) 
 
 (* discount of rank r, clamped at 1, inverted *)
 Definition dweight (disc : nat -> Q) (r : nat) : Q := / Qmaxq (disc r) 1.
-Definition dcg_of (disc : nat -> Q) (scores : list Q) : Q := wsum (dweight disc) 1 scores.
+Definition dcg_of (disc : nat -> Q) (scores : list Q) : Q := ranksum (dweight disc) scores.
 Definition scores_graded (t : tlist) (L : list Z) : list Q := map (fun i => gain_of (tl_items t) i 0) L.
 Definition scores_binary (t : tlist) (L : list Z) : list Q := map (relq t) L.
 
@@ -174,6 +183,26 @@ Definition pop_model (counts : list (Z * nat)) (k : option nat) (recs : ilist) (
   with_topk k recs (fun L =>
     if Nat.eqb (length L) 0 then Ret RNone
     else Ret (arr_mean (ser_reindex (pop_item_ranks counts) L 0))).
+
+(* results agree up to equality of rationals *)
+Definition exc_eq (a b : exc res) : Prop :=
+  match a, b with
+  | Raise e, Raise e' => e = e'
+  | Ret x, Ret y => res_eq x y
+  | _, _ => False
+  end.
+
+(* the result is a number within [lo, hi] *)
+Definition exc_in (lo hi : Q) (r : exc res) : Prop :=
+  match r with Ret (RVal v) => lo <= v <= hi | _ => False end.
+(* a <= b: same error, both undefined, or numbers in that order *)
+Definition exc_le (a b : exc res) : Prop :=
+  match a, b with
+  | Raise e, Raise e' => e = e'
+  | Ret RNone, Ret RNone => True
+  | Ret (RVal x), Ret (RVal y) => x <= y
+  | _, _ => False
+  end.
 
 (* ---- one entry point for the case files ---- *)
 Inductive metric : Type :=
